@@ -18,7 +18,7 @@ CONSTANT MaxFaults
 
 Pipes   == {"plain", "semgrep", "sast"}
 Static  == {"badutf8", "nul", "syntax", "empty"}
-Dynamic == {"vanish", "raise", "raiseAtNode"}
+Dynamic == {"vanish", "raise", "raiseAtNodeEarly", "raiseAtNodeMid", "raiseAtNodeLate"}   \* the j-th visited node: 2nd, 12th, 22nd
 NF == 3
 NC == 2
 
